@@ -4,6 +4,7 @@ import (
 	"fmt"
 	"reflect"
 	"sort"
+	"strings"
 	"testing"
 
 	"go.1password.io/spg"
@@ -17,9 +18,52 @@ import (
 // C10 - word lists normalise to a duplicate-free set; capitalised twins removed.
 
 type c10Case struct {
-	Words []string `json:"words"`
-	Perms [][]int  `json:"perms"`
-	Len   int      `json:"len"`
+	Words      []string `json:"words"`
+	Perms      [][]int  `json:"perms"`
+	Len        int      `json:"len"`
+	noSiblings bool
+}
+
+// shipped lists and slices of them, in one process
+type c10Shipped struct {
+	List string `json:"list"`
+	Lo   int    `json:"lo"`
+	Hi   int    `json:"hi"`
+}
+
+func c10ShippedRun(c c10Shipped) error {
+	src := spg.AgileWords
+	if c.List == "syllables" {
+		src = spg.AgileSyllables
+	}
+	hi := c.Hi
+	if hi > len(src) {
+		hi = len(src)
+	}
+	in := src[c.Lo:hi]
+	snapshot := append([]string{}, in...)
+	wl, err := spg.NewWordList(in)
+	if err != nil {
+		return fmt.Errorf("NewWordList(%s[%d:%d]) failed: %v", c.List, c.Lo, hi, err)
+	}
+	if !reflect.DeepEqual(in, snapshot) {
+		return fmt.Errorf("NewWordList modified the shipped %s list in place", c.List)
+	}
+	kept := oracle.Kept(snapshot)
+	if int(wl.Size()) != len(kept) {
+		return fmt.Errorf("NewWordList(%s[%d:%d]).Size() = %d, want %d", c.List, c.Lo, hi, wl.Size(), len(kept))
+	}
+	if hi-c.Lo <= 600 {
+		got, err := readKept(wl)
+		if err != nil {
+			return err
+		}
+		if !reflect.DeepEqual(got, kept) {
+			return fmt.Errorf("NewWordList(%s[%d:%d]) holds %.200q, want %.200q", c.List, c.Lo, hi, fmt.Sprint(got), fmt.Sprint(kept))
+		}
+	}
+	ev.NonTrivial(fmt.Sprintf("shipped|%s|%d|%d", c.List, c.Lo, hi))
+	return nil
 }
 
 // readKept reads the kept set out of a WordList by generating every
@@ -49,7 +93,7 @@ func readKept(wl *spg.WordList) ([]string, error) {
 	return out, nil
 }
 
-func c10Run(c c10Case) error {
+func c10Run(c c10Case) (err error) {
 	if len(c.Words) == 0 {
 		for _, in := range [][]string{nil, {}} {
 			wl, err := spg.NewWordList(in)
@@ -86,6 +130,29 @@ func c10Run(c c10Case) error {
 	keptSet := map[string]bool{}
 	for _, w := range kept {
 		keptSet[w] = true
+	}
+	// lists easily confused with this one when words are flattened into a key
+	// (two words merged, a word split): normalised on their own terms
+	if len(c.Words) >= 2 && !c.noSiblings {
+		var sibs [][]string
+		for _, d := range []string{"", " "} {
+			sibs = append(sibs, append([]string{c.Words[0] + d + c.Words[1]}, c.Words[2:]...))
+		}
+		if cs := oracle.Chars(c.Words[0]); len(cs) >= 2 {
+			sibs = append(sibs, append([]string{cs[0], strings.Join(cs[1:], "")}, c.Words[1:]...))
+		}
+		defer func() {
+			if err != nil {
+				return
+			}
+			for _, sw := range sibs {
+				ev.Eval(1)
+				if e := c10Run(c10Case{Words: sw, Len: c.Len, noSiblings: true}); e != nil && !ev.IsSkip(e) {
+					err = fmt.Errorf("after NewWordList(%q), the list %q: %w", c.Words, sw, e)
+					return
+				}
+			}
+		}()
 	}
 	perms := append([][]int{nil}, c.Perms...)
 	for pi, perm := range perms {
@@ -160,4 +227,17 @@ func TestC10(t *testing.T) {
 		}
 		return c
 	}, c10Run)
+	ev.Fixed(t, "c10_shipped_slices", func(do func(c10Shipped) bool) {
+		if ev.Cfg.Shard != 0 {
+			return
+		}
+		k := 32 + int(ev.Cfg.Seed%200)
+		for _, l := range []string{"syllables", "words"} {
+			for _, r := range [][2]int{{0, 1 << 30}, {0, k}, {1, k + 1}, {0, 1 << 30}, {k, 2 * k}, {0, 1}} {
+				if !do(c10Shipped{l, r[0], r[1]}) {
+					return
+				}
+			}
+		}
+	}, c10ShippedRun)
 }
